@@ -32,6 +32,7 @@ class SolvGen:
         self.eqs = []              # mexpr equations ("eq", lhs, rhs) or ("if",...)
         self.alg, self.states, self.inputs, self.params, self.consts = [], [], [], [], []
         self.alias_info = []       # (alias name, target name, sign)
+        self.ieqs = []
         self.affine = self.kind == "affine"
 
     def decl(self, name, prefix="", value=None, attrs=None):
@@ -115,10 +116,17 @@ class SolvGen:
                 self.add_alias()
             elif k < 0.65:
                 self.add_constant_assignment()
-            elif k < 0.85:
+            elif k < 0.8:
                 self.add_eliminable()
+            elif k < 0.9:
+                self.add_late_alias()
             else:
                 self.wrap_if()
+        if r.random() < 0.2:
+            # initial equation for a state (does not change the DAE solution set)
+            s0 = r.choice(self.states)
+            self.ieqs.append(("eq", var(s0), num(self.val[s0])))
+            self.tags.add("initial-equation")
         if self.ext == "ext:contradictory-alias-signs":
             self.decl("za")
             self.decl("zb")
@@ -225,6 +233,26 @@ class SolvGen:
         elif tgt.startswith("b"):
             self.tags.add("alias:chain")
 
+    def add_late_alias(self):
+        """an alias that only becomes visible in a later simplification pass: b = a; k = b - a (so k = 0 once b is
+        replaced by a); a + k = -c (an alias equation a = -c once k is known to be the constant 0)."""
+        r = self.r
+        n = sum(1 for d in self.decls if d[2].startswith("lb")) + 1
+        a = r.choice(self.alg)
+        b, k, c = "lb%d" % n, "lk%d" % n, "lc%d" % n
+        sign = r.choice([-1, -1, 1])
+        for nm, v in ((b, self.val[a]), (k, 0.0), (c, sign * self.val[a])):
+            self.decl(nm)
+            self.val[nm] = v
+            self.unknowns.append(nm)
+        self.eqs.append(("eq", var(b), var(a)))
+        self.eqs.append(("eq", var(k), ("bin", "-", var(b), var(a))))
+        self.eqs.append(("eq", ("bin", "+", var(a), var(k)), ("neg", var(c)) if sign == -1 else var(c)))
+        self.alg += [b, k, c]
+        self.alias_info.append((b, a, 1))
+        self.tags.add("alias:revealed-in-later-pass:%s" % ("negative" if sign == -1 else "positive"))
+        self.late_alias = True
+
     def rand_attrs_alias(self):
         a = self.rand_attrs()
         if self.with_attrs and self.r.random() < 0.4:
@@ -285,6 +313,8 @@ class SolvGen:
             if value is not None:
                 s += " = " + mexpr.to_text(value)
             s += ";\n"
+        if self.ieqs:
+            s += "initial equation\n" + "".join(print_eq(e) for e in self.ieqs)
         s += "equation\n" + "".join(print_eq(e) for e in self.eqs) + "end M;\n"
         return s
 
